@@ -173,6 +173,7 @@ def run(pid, tier, seed, t0):
     if diff:
         vlib.log("DRIFT property=%s: %d records differ from the modelled behaviour in components the property does not "
                  "name, e.g. %s" % (pid, len(diff), json.dumps(first[diff[0]])[:600]))
+    connector = __import__("x_connector").stage(pid, tier, seed, verdict)   # Connector.tla: handshake asked for the request's protocol
     code, unlisted = verdict.finish()
 
     samples = [first[1], first[nrec // 3], first[nrec // 2], first[nrec]]
@@ -181,6 +182,7 @@ def run(pid, tier, seed, t0):
     vlib.write_evidence(
         pid, tier, seed, "model_checking",
         {
+            "connector_model": connector,
             "states": m.distinct, "transitions": m.generated - (n_req + n_sel + n_seq),
             "traces_validated_against_impl": nrec,
             "samples": samples,
@@ -237,6 +239,16 @@ def run(pid, tier, seed, t0):
 def replay(pid, path):
     d = vlib.outdir(pid)
     obj = json.load(open(path))
+    _rk = obj.get("replay", {}).get("kind") if isinstance(obj.get("replay"), dict) else None
+    if _rk == "connector-trace":
+        return __import__("x_connector").replay(pid, obj)
+    if _rk == "body-ops":
+        return __import__("x_body").replay(pid, obj)
+    if _rk == "tcpcall-row":
+        _c = __import__("x_tcpcall").replay(pid, obj)
+        if _c:
+            print("VIOLATION property=%s replay=%s" % (pid, path), flush=True)
+        return _c
     recs = obj["replay"]["records"] if "replay" in obj else obj["records"]
     inp = os.path.join(d, "replay-in.ndjson")
     outp = os.path.join(d, "replay-out.ndjson")
